@@ -30,6 +30,9 @@ pub enum Act {
     /// the shell drops the k-th outstanding one-shot request unresolved (hosts that hold typed
     /// requests); on the Core host followed by one no-op event = "one further core call"
     Drop(usize),
+    /// Bridge host: an undecodable answer to the k-th outstanding one-shot (must be rejected;
+    /// the request is used up = dropped), followed by one no-op event
+    BadAnswer(usize),
     Sub,
     Unsub,
     Item,
@@ -170,8 +173,12 @@ impl Ref {
         }
         for k in 0..self.oneshots.len() {
             v.push(Act::Respond(k));
-            if host != HostKind::Bridge && (self.oneshots[k] != OneKind::Legacy || b.drop_legacy) {
-                v.push(Act::Drop(k));
+            if self.oneshots[k] != OneKind::Legacy || b.drop_legacy {
+                v.push(if host == HostKind::Bridge {
+                    Act::BadAnswer(k)
+                } else {
+                    Act::Drop(k)
+                });
             }
         }
         match self.sub {
@@ -257,7 +264,7 @@ impl Ref {
                 }
                 OneKind::SelOrphan => {}
             },
-            Act::Drop(k) => match self.oneshots.remove(k) {
+            Act::Drop(k) | Act::BadAnswer(k) => match self.oneshots.remove(k) {
                 // the task is cancelled, nothing is delivered
                 OneKind::Cmd | OneKind::SelOrphan | OneKind::Sel | OneKind::AbA | OneKind::AbB => {}
                 OneKind::Legacy => h.dropped_legacy += 1,
@@ -531,6 +538,17 @@ impl BridgeHost {
             Act::ReqS => self.event(CEvent::ReqS(Token::new())),
             Act::ReqA => self.event(CEvent::ReqA(Token::new())),
             Act::Drop(_) => Err("the byte-level bridge cannot drop a request".into()),
+            Act::BadAnswer(k) => {
+                let id = self.oneshots.remove(k);
+                match self.bridge.handle_response(id, &[]) {
+                    Err(e) if e.to_string().contains("could not deserialize provided effect output") => {
+                        // the rejected call does not run the core: one further call
+                        self.event(CEvent::Noop)
+                    }
+                    Err(e) => Err(format!("undecodable answer: unexpected error {e}")),
+                    Ok(_) => Err("an undecodable answer was accepted".into()),
+                }
+            }
             Act::Respond(k) => {
                 let id = self.oneshots.remove(k);
                 self.answer(id, &COut(7, Token::new()))
@@ -714,8 +732,8 @@ impl DirectHost {
                 self.settle();
                 res
             }
-            Act::ReqL | Act::LTimerSet | Act::LTimerClear | Act::LTimerFire => {
-                Err("legacy action on the direct host".into())
+            Act::ReqL | Act::LTimerSet | Act::LTimerClear | Act::LTimerFire | Act::BadAnswer(_) => {
+                Err("action not available on the direct host".into())
             }
         }
     }
@@ -842,6 +860,7 @@ impl CoreHost {
                 // the drop is not a call: its consequences surface at the next one
                 self.event(CEvent::Noop)
             }
+            Act::BadAnswer(_) => Err("bytes offered to the typed core".into()),
             Act::Sub => self.event(CEvent::Sub(Token::new())),
             Act::Unsub => self.event(CEvent::Unsub),
             Act::Item => {
@@ -1042,7 +1061,7 @@ pub fn run_path(host: HostKind, path: &[Act], b: &Bounds, trace: bool) -> RunOut
 /// a different leak cannot hide in this dimension.
 fn stuck_legacy(host: HostKind, rf: &Ref, hist: &Hist, g: &Gauges) -> usize {
     let e = rf.expected();
-    if host == HostKind::Core && hist.dropped_legacy > 0 && g.tasks == e.tasks + hist.dropped_legacy
+    if host != HostKind::Direct && hist.dropped_legacy > 0 && g.tasks == e.tasks + hist.dropped_legacy
     {
         hist.dropped_legacy
     } else {
@@ -1081,7 +1100,7 @@ fn check(host: HostKind, rf: &Ref, hist: &Hist, g: &Gauges, h: &Host) -> Vec<Fou
         let (never, once, many) = g.registry;
         if never > hist.notes {
             over(
-                "registry/used-up-entry-kept",
+                "registry/used-up-entry-not-removed",
                 format!("{never} `Never` entries in the registry but only {} notifications were ever sent: entries of answered requests are still there", hist.notes),
                 false,
             );
@@ -1474,7 +1493,7 @@ pub fn run(tier: Tier, args: &[String]) -> i32 {
         "hosts": [show(&bridge, "bincode Bridge over Core (derive(Effect), legacy capabilities available)"),
                   show(&core, "typed Core<CApp> (derive(Effect), legacy capabilities available); the harness holds the typed requests and can drop them"),
                   show(&direct, "harness-hosted Commands (#[effect] enum, Capabilities = ()); Command::verif_live_tasks readable")],
-        "action_alphabet": "ReqC (Command-API one-shot), ReqL (legacy one-shot), ReqJ (task: spawn(child awaiting a shell request); join_handle.await; event), ReqS (one task awaiting select over two shell requests), ReqA (self-aborting command: task B request -> event, task A request -> the command's own AbortHandle, no output), Respond(k) for every outstanding one-shot k (also the orphaned member of a finished select), Drop(k): the shell drops the k-th outstanding one-shot unresolved (Command-API requests on both hosts, legacy requests on the typed-Core host) (direct and typed-Core hosts; on the Core host followed by one no-op event = one further core call; the bridge cannot drop), Sub, Unsub (AbortHandle kept in the model), Item (stream item; also after unsubscribe and after the task ended), Render, CTimerSet / CTimerClear (TimerHandle) / CTimerFire (answer NotifyAfter, also the orphaned one) / CTimerCleared (answer Clear), LTimerSet / LTimerClear (also after the timer finished) / LTimerFire; after EVERY explored path the host is dropped",
+        "action_alphabet": "ReqC (Command-API one-shot), ReqL (legacy one-shot), ReqJ (task: spawn(child awaiting a shell request); join_handle.await; event), ReqS (one task awaiting select over two shell requests), ReqA (self-aborting command: task B request -> event, task A request -> the command's own AbortHandle, no output), Respond(k) for every outstanding one-shot k (also the orphaned member of a finished select), BadAnswer(k): an undecodable answer to the k-th outstanding one-shot on the Bridge host (must be rejected; the request is used up; followed by one no-op event), Drop(k): the shell drops the k-th outstanding one-shot unresolved (Command-API requests on both hosts, legacy requests on the typed-Core host) (direct and typed-Core hosts; on the Core host followed by one no-op event = one further core call; the bridge cannot drop), Sub, Unsub (AbortHandle kept in the model), Item (stream item; also after unsubscribe and after the task ended), Render, CTimerSet / CTimerClear (TimerHandle) / CTimerFire (answer NotifyAfter, also the orphaned one) / CTimerCleared (answer Clear), LTimerSet / LTimerClear (also after the timer finished) / LTimerFire; after EVERY explored path the host is dropped",
         "app_bounds": {"max_outstanding_one_shots": b.max_oneshots, "live_subscriptions": 1, "command_api_timers": 1, "legacy_timers": 1, "model_counters_saturate_at": b.sat},
         "state_key": "(reference: outstanding one-shots with their API in issue order, subscription phase, timer phases, expected view; gauges: registry once/many entries, executor task slots | live commands, sum of Command::verif_live_tasks, queued spawns/wake-ups/effects/events, cleared-timer-set size relative to the start of the path, live drop-tokens). Projected out because a listed finding makes them unbounded (each reported): `Never` registry entries (K3), cleared-set ids of timers cleared after they finished (K4), executor slots and tokens of legacy tasks whose request was dropped (accepted only when exactly one slot per dropped legacy request is stuck)",
         "oracle": "in every reachable state: registry once <= outstanding one-shot requests the shell holds, many <= subscriptions the shell has not been told are finished, never == 0; executor tasks / live commands / command tasks <= live pieces of work; cleared set <= cleared pending timers; live tokens <= tokens owned by live tasks (+ payloads of requests the harness holds); all queues empty after the call; after dropping the host 0 tokens; view == reference view; gauge BELOW the reference = reference error, reported under reference/*",
